@@ -114,6 +114,12 @@ check("C18", "fault_enumeration",
       "the decoder thread is paced one iteration per rendered frame through the gate hook; compressed assets have no independent decoder (differential only).",
       "DESIGN.md §3 C18")
 
+check("C01", "exploration",
+      "exhaustive enumeration of boundary-value lattices of every builder / handle argument and of API histories up to a depth, every callback executed under monitors (panic, watchdog, allocation counter, sample well-formedness)",
+      "F1: {static, streaming} sounds x length {0,1,2,5} x slice {none, empty, inner, inverted, beyond the data} x loop region {none, whole, empty, inverted, beyond, end==len} x start position {0,1,len-1,len,len+3} x reverse x rate {1,-1,0,0.5,3} x 18 handle commands with boundary arguments (negative / beyond-the-end seeks, empty / inverted set_loop_region, -60 dB, +40 dB, pan +-7, rate +-0, 1e9 s tweens); FX: 14 extreme finite values (1e9, 1e300, +-1e12 s, +-1e30 dB, 1e15 samples) x {static, streaming}; F2: every parameter of every built-in effect (and track volume) taken one at a time through {0, -1, 1, 2, documented edges, Nyquist, sample rate, 1e-30, +-1e30, -60 dB +-1 ulp, zero / 1 ns durations} x sample rate {8000, 44100, 192000} x 5 input signals; F3: all API histories to depth 4 (5) over 16 letters (sounds, streaming sounds, nested / send / spatial tracks with effects, clocks, tweeners, LFO-linked volumes, listeners, drops, stops, pauses, callbacks) with all capacities 1 and with all capacities 0; F4: every depth-3 history with 1..8 channels (mono = mean of the stereo rendering, extra channels silent). Every callback: no panic, returns within the watchdog time, zero allocations / frees on the audio thread, every sample finite and in [-1, 1].",
+      "'promptly' = terminates within 2-4 s for <= 16 frames and does no allocation; wall-clock latency is not measured; calls happen between callbacks here (their interleavings with callbacks are C07/C08's E2 part); panics raised on the caller's thread by builders for invalid arguments are counted, not judged.",
+      "DESIGN.md §3 C01")
+
 NOT_YET = {}
 
 def main():
